@@ -287,4 +287,81 @@ theorem sub_spec (a b : Nat) (ha : canon a) (hb : canon b) :
   have : ((a + Pn - b) % Pn + b) % Pn = a := by unfold canon Pn at *; omega
   rw [this, ← value_eq a (Nat.lt_trans ha Pn_lt_W)]
 
+/-! ### `From<u128>`: `mod_reduce` -/
+
+theorem lm_simpl (c : Prop) [Decidable c] :
+    (4294967295 * (if c then 1 else 0)) % 18446744073709551616 = if c then 4294967295 else 0 := by
+  split <;> rfl
+
+theorem mod_reduce_lin (xlo hl hh : Nat) (h1 : xlo < W) (h2 : hl < H) (h3 : hh < H) :
+    let x := xlo + W * (hl + H * hh)
+    mod_reduce x < W ∧
+    ∃ a b, a ≤ 1 ∧ b ≤ 1 ∧ mod_reduce x + a * Pn + Pn * hl + Pn * (H + 1) * hh = x + b * Pn := by
+  intro x
+  have e1 : x % 18446744073709551616 = xlo := by simp only [x]; unfold W H at *; omega
+  have e2 : x / 18446744073709551616 % 18446744073709551616 = hl + H * hh := by simp only [x]; unfold W H at *; omega
+  have e3 : (hl + H * hh) % 4294967296 = hl := by unfold H at *; omega
+  have e4 : (hl + H * hh) / 4294967296 = hh := by unfold H at *; omega
+  unfold mod_reduce
+  simp only [e1, e2, e3, e4, decide_eq_true_eq, lm_simpl]
+  refine ⟨Nat.mod_lt _ (by decide), ?_⟩
+  simp only [x]
+  clear e1 e2 e3 e4 x
+  unfold W H Pn at *
+  have t2 : (hl * 4294967296 % 18446744073709551616 + 18446744073709551616 - hl) % 18446744073709551616 = 4294967295 * hl := by omega
+  simp only [t2]
+  by_cases u : xlo < hh
+  · simp only [u, if_true]
+    have t1 : ((xlo + 18446744073709551616 - hh) % 18446744073709551616 + 18446744073709551616 - 4294967295) % 18446744073709551616 = xlo + 18446744069414584321 - hh := by omega
+    simp only [t1]
+    by_cases o : xlo + 18446744069414584321 - hh + 4294967295 * hl ≥ 18446744073709551616
+    · simp only [o, if_true]
+      have r1 : (xlo + 18446744069414584321 - hh + 4294967295 * hl) % 18446744073709551616 = xlo + 18446744069414584321 - hh + 4294967295 * hl - 18446744073709551616 := by omega
+      have r2 : (xlo + 18446744069414584321 - hh + 4294967295 * hl - 18446744073709551616 + 4294967295) % 18446744073709551616 = xlo + 18446744069414584321 - hh + 4294967295 * hl - 18446744073709551616 + 4294967295 := by omega
+      rw [r1, r2]
+      exact ⟨1, 1, by omega, by omega, by omega⟩
+    · simp only [o, if_false]
+      have r1 : (xlo + 18446744069414584321 - hh + 4294967295 * hl) % 18446744073709551616 = xlo + 18446744069414584321 - hh + 4294967295 * hl := by omega
+      simp only [Nat.add_zero, r1]
+      exact ⟨0, 1, by omega, by omega, by omega⟩
+  · simp only [u, if_false]
+    have t1 : ((xlo + 18446744073709551616 - hh) % 18446744073709551616 + 18446744073709551616 - 0) % 18446744073709551616 = xlo - hh := by omega
+    simp only [t1]
+    by_cases o : xlo - hh + 4294967295 * hl ≥ 18446744073709551616
+    · simp only [o, if_true]
+      have r1 : (xlo - hh + 4294967295 * hl) % 18446744073709551616 = xlo - hh + 4294967295 * hl - 18446744073709551616 := by omega
+      have r2 : (xlo - hh + 4294967295 * hl - 18446744073709551616 + 4294967295) % 18446744073709551616 = xlo - hh + 4294967295 * hl - 18446744073709551616 + 4294967295 := by omega
+      rw [r1, r2]
+      exact ⟨1, 0, by omega, by omega, by omega⟩
+    · simp only [o, if_false]
+      have r1 : (xlo - hh + 4294967295 * hl) % 18446744073709551616 = xlo - hh + 4294967295 * hl := by omega
+      simp only [Nat.add_zero, r1]
+      exact ⟨0, 0, by omega, by omega, by omega⟩
+
+theorem mod_reduce_spec (x : Nat) (hx : x < W * W) :
+    mod_reduce x < W ∧ mod_reduce x % Pn = x % Pn := by
+  have hd : x = x % W + W * ((x / W) % H + H * (x / W / H)) := by unfold W H; omega
+  have := mod_reduce_lin (x % W) ((x / W) % H) (x / W / H) (Nat.mod_lt _ (by decide)) (Nat.mod_lt _ (by decide))
+    (by unfold W H at *; omega)
+  rw [← hd] at this
+  obtain ⟨h1, a, b, _, _, h2⟩ := this
+  refine ⟨h1, ?_⟩
+  have hK : mod_reduce x + Pn * (a + x / W % H + (H + 1) * (x / W / H)) = x + Pn * b := by
+    rw [Nat.mul_add, Nat.mul_add, ← Nat.add_assoc, ← Nat.add_assoc, Nat.mul_comm Pn a, ← Nat.mul_assoc,
+      Nat.mul_comm Pn b]
+    exact h2
+  calc mod_reduce x % Pn = (mod_reduce x + Pn * (a + x / W % H + (H + 1) * (x / W / H))) % Pn :=
+        (Nat.add_mul_mod_self_left _ _ _).symm
+    _ = (x + Pn * b) % Pn := by rw [hK]
+    _ = x % Pn := Nat.add_mul_mod_self_left _ _ _
+
+theorem lm_bound (c : Prop) [Decidable c] : 4294967295 * (if c then 1 else 0) < 18446744073709551616 := by
+  split <;> decide
+
+theorem mod_reduce_ok_true (x : Nat) : mod_reduce_ok x = true := by
+  unfold mod_reduce_ok
+  simp only [Bool.and_eq_true, decide_eq_true_eq]
+  refine ⟨lm_bound _, ?_, lm_bound _⟩
+  omega
+
 end TF.BF
